@@ -138,12 +138,12 @@ def run_impl(case):
         step("bounds", lambda: m.transform._bounds.tolist())
     with grad_ctx(case):
         step("H", lambda: m.node_heights.detach().clone())
-        untouched("node_heights", m._internal_heights.tensor, x0)
+        untouched("node_heights", G.heights_param(m).tensor, x0)
         step("bl", lambda: m.branch_lengths().detach().clone())
-        untouched("branch_lengths()", m._internal_heights.tensor, x0)
+        untouched("branch_lengths()", G.heights_param(m).tensor, x0)
         try:
             _ = m()
-            untouched("model()", m._internal_heights.tensor, x0)
+            untouched("model()", G.heights_param(m).tensor, x0)
         except Exception:
             pass
         if "H" in obs:
@@ -154,12 +154,12 @@ def run_impl(case):
         # the same question asked again must get the same answer (fresh evaluation after a notification)
         if "H" in obs and "bl" in obs:
             try:
-                m._internal_heights.fire_parameter_changed()
+                G.heights_param(m).fire_parameter_changed()
                 H2 = m.node_heights.detach().clone()
                 bl2 = m.branch_lengths().detach().clone()
                 if not (same_bits(H2, obs["H"]) and same_bits(bl2, obs["bl"])):
                     unstable.append(f"node_heights first {obs['H'].tolist()} then {H2.tolist()} for unchanged parameters")
-                untouched("second node_heights", m._internal_heights.tensor, x0)
+                untouched("second node_heights", G.heights_param(m).tensor, x0)
             except Exception as e:
                 unstable.append(f"second evaluation raises {type(e).__name__}: {str(e)[:100]}")
         # the transform called directly on ONE tensor holding ratios and root height / increments
@@ -496,7 +496,7 @@ def build_live(kind, style, t, dates, rows, batched):
         return m, [(dic["heights.x"], "id", (0, n - 1))]
     if style == "plain":
         m = G.make_reparam(t, dates, torch.tensor(val, dtype=DT), kind)
-        p = m._internal_heights
+        p = G.heights_param(m)
         return m, [(p, "id", (0, n - 1))]
     dic = {}
     js = {"id": "tree", "type": "ReparameterizedTimeTreeModel", "newick": G.newick(t), "taxa": taxa_json(dates)}
